@@ -365,7 +365,13 @@ pub fn parse_proj(definition: &str) -> Result<String, Error> {
                 .map(|x| x.to_string())
                 .collect();
 
-            if step_is_inverted != pipeline_is_inverted {
+            // push and pop do not take 'inv': they are each other's inverse
+            let stack_step = !elements.is_empty() && ["push", "pop"].contains(&elements[0].as_str());
+            if stack_step {
+                if step_is_inverted != pipeline_is_inverted {
+                    elements[0] = if elements[0] == "push" { "pop" } else { "push" }.to_string();
+                }
+            } else if step_is_inverted != pipeline_is_inverted {
                 elements.insert(elements.len().min(1), "inv".to_string());
             }
 
